@@ -233,8 +233,8 @@ def r_cursor_count(cx, tags):
                 if x.get("k") in ("Assign", "AssignOp"):
                     ch = field_chain(x["l"])
                     if ch[-1] in ("char_offset", "chars") and "Cursor" in (F.strip(x["l"]).get("base", {}).get("ty") or ""):
-                        if fname.split("::")[-1] not in ("advance", "advance_by"):
-                            writers.append(fname)
+                        if fname.split("::")[-1] not in ("advance", "advance_by") or ch[-1] == "chars":
+                            writers.append("%s (%s)" % (fname, ch[-1]))
         cx.ob(rule, "writers|%s" % tag, not writers, "", "only advance/advance_by update Cursor.char_offset" if not writers else
               "Cursor.char_offset / chars written in %s" % writers)
     cx.count(rule, "sites", sites)
